@@ -4,18 +4,7 @@
    transported to CR. *)
 Require Import Coq.Reals.Reals Coq.QArith.QArith Coq.QArith.Qcanon Coq.QArith.Qreals Coq.setoid_ring.Ring
         Coq.micromega.Lra Coq.Bool.Bool Coq.nsatz.Nsatz.
-Require Import OQ.Base.Ring OQ.Gates.CR OQ.Gates.Trig.
-
-(* ------------------------------------------------------------------ ring homomorphisms between crings *)
-Record cring_hom (A B : cring) (f : A -> B) : Prop := {
-  hom_0 : f c0 = c0; hom_1 : f c1 = c1;
-  hom_add : forall x y, f (cadd x y) = cadd (f x) (f y);
-  hom_mul : forall x y, f (cmul x y) = cmul (f x) (f y);
-  hom_opp : forall x, f (copp x) = copp (f x);
-  hom_sub : forall x y, f (csub x y) = csub (f x) (f y);
-  hom_conj : forall x, f (cconj x) = cconj (f x);
-  hom_i : f ci = ci
-}.
+Require Import OQ.Base.Ring OQ.Base.Hom OQ.Gates.CR OQ.Gates.Trig.
 
 (* ------------------------------------------------------------------ GQ -> CR *)
 Definition qc2r (q : Qc) : R := Q2R (this q).
